@@ -14,6 +14,7 @@ func init() { Registry["C13"] = runC13 }
 
 func runC13(c *Ctx) {
 	R := c.R
+	defer c.include("C13.S1", "C03", []string{"C03.R3"}, "every CopyData payload is delivered byte-exact and once: each accepted message replaces the window", 2)
 	R.Technique = "error-class (nil / io.EOF / other) analysis per switch arm of CopyReader.Read; emit-set and arm automata of the trace engine; format provenance"
 	R.Explanation = "Decides the abort / completion discipline of COPY-in on every path: (R1) the CopyInResponse announces the handler-requested format overall and once per declared column (grammar and count by the C02 frame rules, re-run here for 'G'; the format operands are the CopyIn parameter). " +
 		"(R2) in CopyReader.Read each message type maps to its outcome: CopyData -> nil, CopyDone -> exactly io.EOF, Flush/Sync -> no return (the loop continues), CopyFail and every other type -> a non-nil, non-EOF error; " +
